@@ -412,7 +412,7 @@ func (brr *BalanceRR) simpleBalance() (*backend.BfeBackend, error) {
 		backend = backendRR.backend
 
 		avail := backend.Avail()
-		if avail && backendRR.current > 0 {
+		if avail && backendRR.weight > 0 && backendRR.current > 0 {
 			// find one available backend
 			break
 		}
